@@ -22,9 +22,7 @@ from .c02 import tokmodel, norm_impl_ops, short
 from .c01 import cmm
 
 LEVEL = "other"
-TECHNIQUE = ("reader/writer agreement: the serializer's escaping sets, quoting classes and raw-text table are compared with "
-             "sets computed from the tokenizer model and the parser's content-model map; CFG dominance of error checks over "
-             "emission")
+TECHNIQUE = ("reader/writer agreement: the serializer's text / doctype arms are evaluated on representatives (each data-state delimiter alone, at token edges and doubled; identifiers with either quote) and read back the way the tokenizer model does; quoting classes and raw-text table compared with sets computed from the tokenizer model and the parser's content-model map; CFG dominance of error checks over emission; taint dataflow for the one-token lifetime of the after-start-tag flag")
 CLAIM = ("For each lexical context the serializer writes into, the characters that are special to the tokenizer in that "
          "context (computed from the extracted tokenizer model, not assumed) are escaped, quoted or reported before emission "
          "on every path; the raw-text element set is compared with the parser's content-model switches; every error check "
